@@ -71,6 +71,19 @@ def split_type(t):
     return dns.rdatatype.from_text(t), dns.rdatatype.NONE
 
 
+def set_btree_branching(t):
+    """Tuning knob owned by the simulator: the branching factor new B-trees get by default
+    (dns.btree.DEFAULT_T = 127 keeps every test-sized zone inside one root leaf, so that splits,
+    merges and copy-on-write of inner nodes never run below a zone).  Nothing in /repo is changed:
+    the keyword default of the three constructors is rebound, per run."""
+    import dns.btree
+
+    t = int(t or 127)
+    for cls in (dns.btree.BTree, dns.btree.BTreeDict, dns.btree.BTreeSet):
+        cls.__init__.__kwdefaults__["t"] = t
+    return t
+
+
 class Bench:
     """One real zone of a given kind/relativize setting plus argument builders."""
 
